@@ -240,8 +240,10 @@ ISO_ASSUME = ["the scan observation (Readdirnames order, names, sizes, mtimes) i
 def iso_job(q, t):
     return {"cmd": "iso", "quick": q, "thorough": t, "timeout": 6000}
 
+TOOLS_SMALL = {"cmd": "tools", "quick": 12, "thorough": 200, "binary": True, "timeout": 6000}
+
 PROPS["C07"] = {
-    "jobs": [iso_job(120, 3000)],
+    "jobs": [iso_job(120, 3000), TOOLS_SMALL],
     "rule": ISO_RULE, "assumptions": ISO_ASSUME,
     "partial": ["the theorems stop at the record level: that an independent reader walking the bytes from the root record reaches every directory "
                 "(child links, '..' links) is decided by the harness's own ECMA-119/Joliet reader on every generated image, not by a theorem",
@@ -253,7 +255,7 @@ PROPS["C07"] = {
     "technique": "Coq proof over a byte-exact model of the image builder + differential (hash of metadata area, file table) + independent ISO reader",
 }
 PROPS["C08"] = {
-    "jobs": [iso_job(120, 3000)],
+    "jobs": [iso_job(120, 3000), TOOLS_SMALL],
     "rule": ISO_RULE, "assumptions": ISO_ASSUME,
     "partial": ["'..'/child-link consistency, path-table parent numbering, non-overlap of directory extents and the supplementary descriptor's fields "
                 "are checked by the strict validator (anchored on internal/testutil/testdata/testimg.iso) and by the byte-exact differential, not by theorems",
@@ -271,6 +273,27 @@ PROPS["C18"] = {
     "level_text": "Theorem C18_varies_only_in_fields: for every tree the image is A ++ rnd ++ B ++ now now ++ C ++ now now ++ D with fixed A,B,C,D, file "
                   "table and size - the clock and the random source reach exactly the documented fields; the model is tied to the code byte for byte.",
     "technique": "Coq proof over a byte-exact model of the image builder + differential + re-open oracle",
+}
+
+PROPS["C20"] = {
+    "jobs": [{"cmd": "tools", "quick": 48, "thorough": 1500, "binary": True, "timeout": 6000}],
+    "rule": "the real binary (go build ./cmd/ps3netsrv-go from the working tree), four kinds of case in turn: make-iso of a generated tree (C07 space, depth <= 2, "
+            "both modes, TITLE_IDs incl. refused ones) compared with the server's view of the same directory under the C18 mask and decoded by the "
+            "independent ISO reader; decrypt redump and decrypt 3k3y of generated images (C10 space incl. invalid region tables, key files in lower/upper "
+            "case with/without newline) compared with the harness' own decryptor and with Model/Tools.decrypt_output, then served back from PS3ISO/, "
+            "PS3ISO/sub/ (upper-case .ISO) and games/; output to a new file or to '-' (a third of the cases); targets: one of the three tools aimed at "
+            "an existing file, an existing empty file, an existing directory, a symlink to a file, '-' or a new path, with the bytes and mtimes of everything "
+            "that existed compared before/after; all cases non-trivial",
+    "assumptions": ["io.Copy reads with a 32 KiB buffer until io.EOF (its generic path); *os.File.Write writes all bytes or fails",
+                    "the dec table (per-sector plaintext) comes from the harness' own AES-CBC decryptor, as in C10",
+                    "kong evaluates the outputfile mapper before Run; the model takes 'the path exists' as os.Stat reports it"],
+    "partial": ["served-back is proved for locations where no key file applies; an output placed next to a .dkey of its own name is decrypted again by design (C11)",
+                "a redump plaintext that itself carries a 3k3y watermark at 0xF70 would be masked when served back (not generated)",
+                "races between the existence test and the creation of the output file (another process creating the path in between) are outside the model"],
+    "level_text": "Theorems C20_make_iso_copy / C20_make_iso (the copy loop writes the whole flat image of every built image), C20_decrypt (the copy of the decrypting "
+                  "view is the reference plaintext, region map cleared, 3k3y area zeroed for 3k3y), C20_3k3y_output_clean, C20_served_back, C20_no_clobber, over "
+                  "Model/Tools on top of the C07/C09/C10/C11 models; tied to the real binary by the tools job.",
+    "technique": "Coq proof over the copy-loop / view models + differential against the real binary (hash of tool output, directory before/after)",
 }
 
 # properties not registered yet, with the reason shown in MANIFEST.not_applicable
